@@ -288,7 +288,7 @@ theorem lits_applyOp {size acc : Nat} {d : Value} {op : Op} {d' : Value} {acc' :
     ∀ l, l ∈ d'.numLits → l ∈ d.numLits ∨ ∃ v, op.value = some v ∧ l ∈ v.numLits := by
   intro l hl
   cases hp : parsePointer op.path with
-  | none => rw [applyOp_badPointer hp] at h; cases h
+  | none => exact absurd h (applyOp_badPointer_ne_ok hp _)
   | some path =>
   cases hk : op.kind with
   | add =>
